@@ -440,6 +440,7 @@ def source_accounting(prog, chk):
     ge = cfgq.guard_edges(g, ahead)
     blind = [(bid, idx, a) for (bid, idx, a) in rewrites if not (ge and cfgq.must_pass_edge(g, bid, ge))]
     remembered = []
+    stale_tests = []
     for (b, i, r, a) in g.eval_sites("asg"):
         lp = path(strip(a.get("lhs"))) or ""
         if lp.startswith("scanner->") and const(a.get("rhs")) not in (None, 0):
@@ -451,11 +452,22 @@ def source_accounting(prog, chk):
                 return None
             ce = cfgq.guard_edges(g, is_cr)
             if ce and cfgq.must_pass_edge(g, b.id, ce):
-                remembered.append((lp, a.get("l")))
+                # the test must look at the data as read: no rewrite may be able to run before it
+                late = [(rb, ra) for (rb, ri, ra) in rewrites for (tb, te) in ce if tb in cfgq.reach(g, [rb])]
+                if late:
+                    stale_tests.append((lp, a.get("l"), late[0][1].get("l")))
+                else:
+                    remembered.append((lp, a.get("l")))
     if not blind:
         r6.ok("%s:cr-rewrite" % REFILL_ROOT, "%d rewrite(s), each with the successor in view" % len(rewrites))
     elif remembered:
         r6.ok("%s:cr-rewrite" % REFILL_ROOT, "a read ending in CR is recorded in %s (L%s)" % remembered[0])
+    elif stale_tests:
+        lp, l1, l2 = stale_tests[0]
+        r6.violation(g.file, g.name, l1, "cr-test-after-rewrite:%s" % REFILL_ROOT,
+                     "`%s` is set (L%s) under a test for CR that can run after the CR rewrite at L%s: a CR ending the read has "
+                     "already been turned into a newline by then, so the read is not remembered as ending in CR and the LF that "
+                     "opens the next read counts as a second terminator" % (lp, l1, l2))
     else:
         bid, idx, a = blind[0]
         r6.violation(g.file, g.name, a.get("l"), "cr-at-end-of-read:%s" % REFILL_ROOT,
